@@ -51,6 +51,14 @@ theorem classMutables_reviewed :
     classMutables.all (fun m => (reviewedClassMutables.lookup (m.1, m.2.1, m.2.2.1)).isSome) = true := by
   decide +kernel
 
+/-- The premise of `cache_transparent` for values that are objects: the instances that are shared process-wide
+(returned by a memoised function or bound to a module-level constant — the `Import` singletons) are never written to.
+Every attribute store whose attribute is a field name of such a class, and every dynamic `setattr`, is on the reviewed
+list as a write to some OTHER object; the set of shared classes is the reviewed one. -/
+theorem memoised_values_never_mutated :
+    memoValueWrites.all (fun w => (reviewedMemoWrites.lookup (w.1, w.2.1, w.2.2.1)).isSome) = true ∧
+    memoClasses.map (·.1) = knownSharedClasses := by decide +kernel
+
 /-! ### Universal lemmas behind the tags -/
 
 /-- `sortedLater` / `sorted(` at the point of use: whatever order a set was iterated in, and whatever
